@@ -806,7 +806,7 @@ func stripAsserts(v ssa.Value) ssa.Value {
 // L5
 
 func ruleL5(c *Ctx) *RuleResult {
-	r := &RuleResult{Floor: 4, FloorWhat: "slot obligations"}
+	r := &RuleResult{Floor: 2, FloorWhat: "slot obligations"}
 	slots, notes := c.slotFields()
 	r.Notes = notes
 	if len(slots) < 2 {
@@ -1268,7 +1268,7 @@ func init() {
 }
 
 func ruleL5b(c *Ctx) *RuleResult {
-	r := &RuleResult{Floor: 2, FloorWhat: "dereferences of an open slot in request code"}
+	r := &RuleResult{Floor: 1, FloorWhat: "dereferences of an open slot in request code"}
 	slots, _ := c.slotFields()
 	ro := c.roles()
 	rset := c.reachRole(ro.R)
